@@ -7,6 +7,7 @@ import (
 	"sort"
 	"strings"
 
+	"github.com/rkosegi/yaml-toolkit/analytics"
 	"github.com/rkosegi/yaml-toolkit/dom"
 )
 
@@ -97,6 +98,7 @@ func c19GenHist(r *rand.Rand) c19Hist {
 		}
 	}
 	nested := []string{"d.e", "d.f", "g.h.i", "l[0]", "l[1]"}
+	var lastAdd *c19Edit
 	edit := func() c19HStep {
 		e := &c19Edit{Route: pick(r, c19Routes)}
 		if len(h.Docs) > 1 && r.Intn(4) == 0 {
@@ -120,6 +122,13 @@ func c19GenHist(r *rand.Rand) c19Hist {
 			}
 		}
 		e.V = c19Value(r, c19PoolIndex(e.Path))
+		if lastAdd != nil && r.Intn(2) == 0 {
+			// an edit through the container that an earlier Add handed to this layer
+			e.Doc, e.Layer, e.Route = lastAdd.Doc, lastAdd.Layer, "held"
+		}
+		if e.Route == "add" {
+			lastAdd = e
+		}
 		return c19HStep{Edit: e}
 	}
 	if r.Intn(8) > 0 {
@@ -458,10 +467,15 @@ func c19EvalHist(c *Ctx, raw []byte) {
 		// ---- fresh objects on freshly built documents of the same content
 		var obsF, searchF map[string]any
 		out, txt = guard(func() {
-			obsF = c19RunObjs(c19BuildObjs(f, false), args(fresh, false), h.Keys)
+			// (the fresh dependency resolver comes from the builder, the long-lived one from
+			// DefaultDependencyResolver(): equivalent entry points)
+			freshObjs := c19BuildObjs(f, false)
+			freshObjs.dep = analytics.NewDependencyResolverBuilder().Build()
 			if h.SameRef {
 				// distinct documents of equal content in the place of the one object passed twice
-				obsF = c19RunObjs(c19BuildObjs(f, false), append([]dom.OverlayDocument{fresh[0], c19Fresh(fresh[0])}, fresh[1:]...), h.Keys)
+				obsF = c19RunObjs(freshObjs, append([]dom.OverlayDocument{fresh[0], c19Fresh(fresh[0])}, fresh[1:]...), h.Keys)
+			} else {
+				obsF = c19RunObjs(freshObjs, fresh, h.Keys)
 			}
 			searchF = c19SearchObs(fresh[0], searchKeys)
 		})
